@@ -820,6 +820,8 @@ package rlwe
 //@   case n == 1 ; alias opOut = ctIn
 //@   requires offset != 0 && len(ctIn.Value) == 2 && len(opOut.Value) == 2 && len(ctIn.Value[0].Coeffs) >= 1 && len(ctIn.Value[1].Coeffs) == len(ctIn.Value[0].Coeffs)
 //@   requires indom(ctIn.Value[0], ctIn.IsNTT) && indom(ctIn.Value[1], ctIn.IsNTT)
+// parameters WITH auxiliary modulus here; without it the function hands over to InnerFunction (#one below)
+//@   requires len(eval.params.pi) >= 1
 //@   ensures isnil(err) && val(opOut.Value[0]) == old(val(ctIn.Value[0])) && val(opOut.Value[1]) == old(val(ctIn.Value[1]))
 //@   ensures iff(opOut.IsNTT, old(ctIn.IsNTT)) && indom(opOut.Value[0], opOut.IsNTT) && indom(opOut.Value[1], opOut.IsNTT)
 
@@ -838,3 +840,12 @@ package rlwe
 //@   case n == 2 && len(eval.params.pi) == 0 ; set eval.params.ringP = nil
 //@   requires offset != 0 && len(ctIn.Value) == 2 && len(opOut.Value) == 2 && len(ctIn.Value[0].Coeffs) >= 1 && len(ctIn.Value[1].Coeffs) == len(ctIn.Value[0].Coeffs)
 //@   ensures true
+
+//@ afunc Evaluator.InnerFunction#one
+//@   property C11
+//@   callback not called: with one term the user's function is never applied
+//@   case n == 1
+//@   requires len(ctIn.Value) == 2 && len(opOut.Value) == 2 && len(ctIn.Value[0].Coeffs) >= 1 && len(ctIn.Value[1].Coeffs) == len(ctIn.Value[0].Coeffs) && len(opOut.Value[0].Coeffs) >= len(ctIn.Value[0].Coeffs)
+//@   requires indom(ctIn.Value[0], ctIn.IsNTT) && indom(ctIn.Value[1], ctIn.IsNTT)
+//@   ensures isnil(err) && val(opOut.Value[0]) == old(val(ctIn.Value[0])) && val(opOut.Value[1]) == old(val(ctIn.Value[1]))
+//@   ensures iff(opOut.IsNTT, old(ctIn.IsNTT)) && indom(opOut.Value[0], opOut.IsNTT) && indom(opOut.Value[1], opOut.IsNTT)
